@@ -453,6 +453,29 @@ func genC16(g *gen) {
 			}
 		}
 	}
+	// addresses with leading zero bytes (a parser that reads the string as a number drops them) and strings that a
+	// number parser accepts but that are not hexadecimal byte strings
+	g.note("addresses with leading zero bytes; signed / spaced numerals")
+	for _, lead := range [][]byte{{0x00, 0x10}, {0x00, 0x00, 0x10}, {0x00, 0x01}, {0x00, 0x00, 0x00}, {0x00}, {0x00, 0x10, 0x00}} {
+		for r := 0; r < 3; r++ {
+			a := append(append([]byte{}, lead...), g.bytes(20-len(lead))...)
+			coreV := xmss.IsValidXMSSAddress(*(*[20]byte)(a))
+			coreD := dilithium.IsValidDilithiumAddress(*(*[20]byte)(a))
+			for _, ha := range g.hexVariants(a) {
+				g.check(g.op("js.xvalid %s", hx([]byte(ha))) == "ok "+bstr(coreV), "xmss-valid-wrapper", "IsValidXMSSAddress wrapper differs from core for "+ha, "js.xvalid "+hx([]byte(ha)))
+				g.check(g.op("js.dvalid %s", hx([]byte(ha))) == "ok "+bstr(coreD), "dil-valid-wrapper", "IsValidDilithiumAddress wrapper differs from core for "+ha, "js.dvalid "+hx([]byte(ha)))
+			}
+		}
+	}
+	{
+		a := append([]byte{0x10}, g.bytes(19)...)
+		ha := hex.EncodeToString(a)
+		for _, bad := range []string{"+" + ha, "-" + ha, "+" + ha[1:], "0x+" + ha[1:], ha[:39] + "_", "0x" + ha[:38] + "_0", "0b" + ha[2:], "0o" + ha[2:]} {
+			hb := hx([]byte(bad))
+			g.check(g.op("js.dvalid %s", hb) == "ok false", "nonhex-dvalid", "IsValidDilithiumAddress accepted a string that is not hexadecimal: "+bad, "js.dvalid "+hb)
+			g.check(g.op("js.xvalid %s", hb) == "ok false", "nonhex-xvalid", "IsValidXMSSAddress accepted a string that is not hexadecimal: "+bad, "js.xvalid "+hb)
+		}
+	}
 	g.note("strings that are not valid hexadecimal")
 	h67 := hex.EncodeToString(xpk[:])
 	bads := []string{"zz", "0x", "0xg0", "abc", "0xabc", h67[:len(h67)-1], "0x" + h67[:len(h67)-1], h67[:40] + "g" + h67[41:], " " + h67, h67 + " ", "0X" + h67, "0x0x" + h67, "é", "\x00\x00"}
@@ -588,6 +611,63 @@ func genC09(g *gen) {
 		})
 		g.check(r == "ok", "held-mnemonic-dilithium", "a Dilithium mnemonic / hex seed exported earlier no longer recovers the wallet after other exports: "+r,
 			"dl.new d0 "+hx(sd0[:]), "dl.new d1 "+hx(sd1[:]))
+	}
+	// secrets whose mnemonic could be mistaken for something else: every word made of the letters a..f only
+	// (32 three-letter words without the blanks are 96 hexadecimal digits, the length of a hex seed)
+	g.note("mnemonics made of hexadecimal-looking words")
+	{
+		var hexWords []int
+		for i, w := range qrl.WordList {
+			ok := len(w) > 0
+			for _, c := range w {
+				ok = ok && c >= 'a' && c <= 'f'
+			}
+			if ok {
+				hexWords = append(hexWords, i)
+			}
+		}
+		g.counts["hex-looking-words"] = len(hexWords)
+		var three []int
+		for _, i := range hexWords {
+			if len(qrl.WordList[i]) == 3 {
+				three = append(three, i)
+			}
+		}
+		mk := func(pool []int) (seed [48]byte) {
+			var nib []byte
+			for k := 0; k < 32; k++ {
+				v := pool[g.rng.Intn(len(pool))]
+				nib = append(nib, byte(v>>8), byte(v>>4)&15, byte(v)&15)
+			}
+			for k := 0; k < 48; k++ {
+				seed[k] = nib[2*k]<<4 | nib[2*k+1]
+			}
+			return
+		}
+		for t := 0; t < 6 && len(hexWords) > 0; t++ {
+			pool := hexWords
+			if t%2 == 0 && len(three) > 0 {
+				pool = three
+			}
+			seed := mk(pool)
+			d0, _ := dilithium.NewDilithiumFromSeed(seed)
+			mn := d0.GetMnemonic()
+			var d1 *dilithium.Dilithium
+			r := guard(func() string { d1, _ = dilithium.NewDilithiumFromMnemonic(mn); return "ok" })
+			g.check(r == "ok" && d1 != nil && d1.GetSeed() == seed && d1.GetPK() == d0.GetPK(), "dil-mnemonic-recovery",
+				"NewDilithiumFromMnemonic(GetMnemonic()) differs from the original for a mnemonic of hexadecimal-looking words ("+trunc(mn, 40)+"…): "+r, "dl.new h "+hx(seed[:]), "dl.newmn "+hx([]byte(mn)))
+			g.op("dl.newmn %s", hx([]byte(mn)))
+			es := append([]byte{0, 2, 0}, seed[:]...) // XMSS: descriptor SHA2_256 / h=4 in front of the same seed
+			x := xmss.NewXMSSFromExtendedSeed(*(*[51]byte)(es))
+			xm := x.GetMnemonic()
+			r = guard(func() string {
+				if misc.MnemonicToExtendedSeedBin(xm) != x.GetExtendedSeed() {
+					return "differs"
+				}
+				return "ok"
+			})
+			g.check(r == "ok", "xmss-mnemonic-roundtrip", "MnemonicToExtendedSeedBin(GetMnemonic()) != GetExtendedSeed() for a mnemonic of hexadecimal-looking words: "+r, "m.dec51 "+hx([]byte(xm)))
+		}
 	}
 	g.note("Dilithium constructors")
 	nd := 3
